@@ -832,6 +832,10 @@ class Interp:
             if ga is not None:
                 return self.unk(f'__getattr__ fallback for {attr}', n, s)
             raise InterpAbort('AttributeError', n, s.root().rel, f'{base.cls.name} object has no attribute {attr}')
+        if type(base).__name__ == 'Pattern' and attr in ('match', 'fullmatch', 'search'):
+            return NativeMethod(base, attr)
+        if type(base).__name__ == 'Match' and attr in ('group', 'groups', 'start', 'end', 'span'):
+            return NativeMethod(base, attr)
         if isinstance(base, str) and attr in SAFE_STR_METHODS:
             return NativeMethod(base, attr)
         if isinstance(base, list) and attr in SAFE_LIST_METHODS:
@@ -1094,6 +1098,13 @@ class Interp:
         if qual == 'math.ceil' and isinstance(args[0], (int, float)):
             import math
             return math.ceil(args[0])
+        if qual in ('re.compile', 're.match', 're.fullmatch', 're.search') and args and all(isinstance(a, (str, int)) for a in args) and not kwargs:
+            # pure functions of constant texts: evaluated for real (a name check in a constructor decides whether the form can be built)
+            import re as _re
+            try:
+                return getattr(_re, qual.split('.')[1])(*args)
+            except Exception as e:
+                raise InterpAbort(type(e).__name__, n, s.root().rel, str(e))
         return Opaque(qual, args, kwargs)
 
     # -------------------------------------------------------------- statements
